@@ -47,6 +47,11 @@ pub struct WrapSm {
     pub pause_in_generate: std::sync::atomic::AtomicBool,
     pub generate_started: tokio::sync::Notify,
     pub resume_generate: tokio::sync::Notify,
+    /// when set, the next apply_chunk() announces itself on `apply_started` and waits (bounded)
+    /// for `resume_apply` before touching the engine: an apply that is "in flight"
+    pub pause_in_apply: std::sync::atomic::AtomicBool,
+    pub apply_started: tokio::sync::Notify,
+    pub resume_apply: tokio::sync::Notify,
     /// every apply_chunk input, in call order
     pub applied: Mutex<Vec<Vec<ApplyEntry>>>,
 }
@@ -59,7 +64,7 @@ impl std::fmt::Debug for WrapSm {
 
 impl WrapSm {
     pub fn new(o: Opened, engine: Engine) -> Arc<WrapSm> {
-        Arc::new(WrapSm { inner: o.sm, lease: o.lease, engine, pause_in_generate: std::sync::atomic::AtomicBool::new(false), generate_started: tokio::sync::Notify::new(), resume_generate: tokio::sync::Notify::new(), applied: Mutex::new(vec![]) })
+        Arc::new(WrapSm { inner: o.sm, lease: o.lease, engine, pause_in_generate: std::sync::atomic::AtomicBool::new(false), generate_started: tokio::sync::Notify::new(), resume_generate: tokio::sync::Notify::new(), pause_in_apply: std::sync::atomic::AtomicBool::new(false), apply_started: tokio::sync::Notify::new(), resume_apply: tokio::sync::Notify::new(), applied: Mutex::new(vec![]) })
     }
 }
 
@@ -88,6 +93,10 @@ impl StateMachine for WrapSm {
     }
     async fn apply_chunk(&self, chunk: &[ApplyEntry]) -> Result<Vec<ApplyResult>, Error> {
         self.applied.lock().unwrap().push(chunk.to_vec());
+        if self.pause_in_apply.swap(false, std::sync::atomic::Ordering::SeqCst) {
+            self.apply_started.notify_one();
+            let _ = tokio::time::timeout(std::time::Duration::from_millis(500), self.resume_apply.notified()).await;
+        }
         self.inner.apply_chunk(chunk).await
     }
     fn len(&self) -> usize {
